@@ -20,7 +20,9 @@ def run(ctx):
                 "API errors at each call, both networks); evaluations = steps executed on the real watcher code; distinct non-trivial = steps (height tick / re-observation) "
                 "in which at least one message was forwarded")
     ctx.samples = [{"history": r["id"], "step": s} for r in rows[:40] for s in r["steps"] if s.get("fwd")][:4]
+    pipe = A.pipe_start(ctx, "cases_C08_pipe", rows, "full")   # the composed model (AlphPipeline) on the histories with raw boundary / unfit fields
     n, bad = A.model_compare(ctx, "cases_C08", rows)
+    pipe.join()
     if bad is None:
         return
     ctx.cov["traces_validated_against_impl"] = n
@@ -31,7 +33,7 @@ def run(ctx):
                     "first diverging step %s: %s" % (k, str(r["steps"][k] if k is not None and k < len(r["steps"]) else "")[:400]),
                     concrete=False, replay=A.replay_of(r, "model/implementation divergence at step %s" % k))
     ctx.assumptions = ["the node's answers are taken at face value: 'at that moment' = according to the answer obtained in that step",
-                       "field conversion (ToWormholeMessage, parseAttestToken, toByteVec, toUint8) is an input flag of the model; it is the subject of C11",
+                       "in model.AlphWatcher the field conversion is an input flag; model.AlphPipeline composes it with model.AlphConv (raw fields in, full message out), proved to refine model.AlphWatcher step by step and replayed on the histories of the fields family",
                        "int32 / int64 wrap-around of height+level and timestamp+duration is modelled; the theorems assume block heights below 2^31-256 and |timestamps| below 2^62",
                        "wall-clock comparisons are decided with block timestamps at least 2.5 s away from every hold-time boundary",
                        "concurrency: the watcher's goroutines share no state besides the channels; the model interleaves whole steps (one poll, one hand-over, one height tick, one re-observation request)"]
